@@ -362,9 +362,13 @@ def def_source(d, defs, oracle):
             if s["flag"] is not None:
                 parts.append("twz_active=%s" % sarg(s["flag"], names))
             if s.get("unpack"):
+                fn_name = s["fn"]
                 if not oracle:
-                    parts.append("twz_unpack_to=%d" % s["unpack"])
-                lines.append("    %s = %s(%s)" % (", ".join("v%d_%d" % (j, c) for c in range(s["unpack"])), s["fn"], ", ".join(parts)))
+                    if s["fn"] == "pair" and s["unpack"] == 2 and (j % 2 == 0):
+                        fn_name = "pair_unpacked2"       # unpack_to given by the decorator
+                    else:
+                        parts.append("twz_unpack_to=%d" % s["unpack"])
+                lines.append("    %s = %s(%s)" % (", ".join("v%d_%d" % (j, c) for c in range(s["unpack"])), fn_name, ", ".join(parts)))
             else:
                 lines.append("    v%d = %s(%s)" % (j, s["fn"], ", ".join(parts)))
     r = d["ret"]
@@ -428,6 +432,9 @@ def wrap_lib(attrs):
         a = attrs.get(f, {})
         out[f] = tawazi.xn(mk(), priority=a.get("prio", 0), is_sequential=a.get("seq", False),
                            resource=a.get("res", Resource.thread))
+        if f == "pair":
+            out["pair_unpacked2"] = tawazi.xn(mk(), priority=a.get("prio", 0), is_sequential=a.get("seq", False),
+                                              resource=a.get("res", Resource.thread), unpack_to=2)
     return out
 
 
